@@ -227,7 +227,8 @@ Qed.
 (** [structural] invariants of every state reachable from a new detector by set_reference / update
     calls: counters, the length of the epsilon list (since - 1 entries, 2 on the bootstrap batch),
     total_batches - _lambda = batches_since_reset and reference_n = len(reference),
-    _bins = floor(sqrt(reference_n)) outside drift; at a drift _lambda = total_batches *)
+    _bins = floor(sqrt(reference_n)) outside drift; at a drift _lambda = total_batches; with a single
+    feature feature_info is absent *)
 Theorem C07_reachable_invariants : forall (p : hparams) ops, hinv p (run p hdm_init ops).
 Proof. intros p ops. apply hinv_run, hinv_init. Qed.
 (** ... so that the denominator d of the threshold is batches_since_reset - 1 *)
@@ -269,21 +270,25 @@ Proof.
   cbv zeta in *. rewrite A2 in R2, R3, R4. repeat split; assumption.
 Qed.
 
-(** [structural] feature_info (several features, on drift): the per-feature differences to the
-    previous batch's per-feature distances, the per-feature distances, and
+(** [structural] feature_epsilons is assigned from the second batch of an epoch on - the per-feature
+    differences to the previous batch of the same epoch - and otherwise the attribute is left unchanged;
+    feature_info (several features, on drift) holds these differences, the per-feature distances, and
     feature_epsilons.index(max(feature_epsilons)); with one feature it is left alone *)
+Theorem C07_feature_epsilons : forall (p : hparams) s X b,
+  h_feps (core p s X b) =
+  (if 2 <=? h_since s + 1 then Some (zip_sub (c_fds trunc dist p s X) (h_prev_fd s)) else h_feps s).
+Proof.
+  intros p s X b. destruct (core_records trunc sq dist tppf p s X b) as (_ & _ & _ & _ & _ & _ & _ & _ & _ & B10).
+  cbv zeta in B10. rewrite B10. destruct (1 <? h_since s + 1) eqn:E1; destruct (2 <=? h_since s + 1) eqn:E2; try reflexivity; lia.
+Qed.
 Theorem C07_feature_info : forall (p : hparams) s X b,
-  c_drift trunc sq dist tppf p s X b = true -> 1 <= h_total s ->
+  c_drift trunc sq dist tppf p s X b = true ->
   h_finfo (core p s X b) =
   (if 1 <? h_k p
    then (let fe := zip_sub (c_fds trunc dist p s X) (h_prev_fd s) in Some (fe, c_fds trunc dist p s X, argmax_first fe))
    else h_finfo s) /\
   h_feps (core p s X b) = Some (zip_sub (c_fds trunc dist p s X) (h_prev_fd s)).
-Proof.
-  intros p s X b Hd Ht. split; [apply core_feature_info; assumption|].
-  destruct (core_records trunc sq dist tppf p s X b) as (_ & _ & _ & _ & _ & _ & _ & _ & _ & B10).
-  cbv zeta in B10. rewrite B10. replace (1 <? h_total s + 1) with true by lia. reflexivity.
-Qed.
+Proof. exact (core_feature_info trunc sq dist tppf). Qed.
 (** [order-law] ... and that index names the first feature whose difference is maximal *)
 Theorem C07_feature_info_argmax : OrdLaws N ->
   (forall a : F, feqb a a = true) -> (forall a b : F, feqb a b = true -> fleb b a = true) ->
@@ -333,18 +338,20 @@ Proof. intros p ops. destruct (hinv_run trunc sq dist tppf p ops hdm_init (hinv_
 (** [structural] after a reported drift, from the next update on, everything the detector reports
     (state, counters, distance, epsilon, threshold, reference_n, reference content, epsilon list,
     running total) is what a new detector given the drifted batch as its reference reports on the same
-    later calls and oracle answers, batch indices shifted by the batches seen before.  (With
-    detect_batch = 1 the drifted batch must have at least three rows, as set_reference requires.)
-    Not covered, because it is not true of the code: feature_epsilons of the first batch after a drift
-    (detect_batch <> 1) is the difference to the per-feature distances of the last batch before the
-    drifting one. *)
+    later calls and oracle answers, batch indices shifted by the batches seen before - including
+    feature_epsilons (read once it has been computed in the current epoch: before that the code leaves
+    the attribute at its previous value, which a new detector does not have) and feature_info (read
+    while drift is reported).  With detect_batch = 1 the drifted batch must have at least three rows,
+    as set_reference requires.  With a single feature feature_info is never assigned: the hypothesis
+    says that it is still absent (true of every reachable state, C07_reachable_invariants). *)
 Theorem C07_clean_slate_drift : forall (p : hparams) s0 X0 b0 X b ops,
   let s := update p s0 X0 b0 in
   h_ds s0 <> DWarn -> h_ds s = DDrift -> ((h_db p =? 1) && (zlen X0 <? 3)) = false ->
+  ((1 <? h_k p) = false -> h_finfo s0 = None) ->
   trace p s (OUpd X b :: ops) =
   map (hshift (h_total s)) (trace p (set_reference p hdm_init X0) (OUpd X b :: ops)).
 Proof.
-  intros p s0 X0 b0 X b ops s Hw Hd Hok.
+  intros p s0 X0 b0 X b ops s Hw Hd Hok Hfi.
   set (s1 := if is_drift (h_ds s0) then reset p s0 else s0).
   assert (Hs : s = core p s1 X0 b0) by reflexivity.
   assert (H1 : h_ds s1 <> DDrift).
@@ -354,16 +361,19 @@ Proof.
   assert (Hc : c_drift trunc sq dist tppf p s1 X0 b0 = true).
   { rewrite Hs, core_ds in Hd. destruct (c_drift trunc sq dist tppf p s1 X0 b0); [reflexivity | contradiction]. }
   destruct (core_starts_epoch trunc sq dist tppf p s1 X0 b0 Hc) as (_ & A2 & _ & _ & A5 & _). cbv zeta in *.
-  rewrite <- Hs in A2, A5. rewrite <- A2. apply clean_slate_drift; [exact Hd | exact A5 | rewrite A2; exact Hok].
+  rewrite <- Hs in A2, A5. rewrite <- A2. apply clean_slate_drift; [exact Hd | exact A5 | rewrite A2; exact Hok|].
+  intros Hk. rewrite Hs, core_eq. cbv zeta. cbn [h_finfo]. rewrite Hk, andb_false_r.
+  unfold s1. destruct (is_drift (h_ds s0)); [|apply Hfi, Hk].
+  destruct (reset_keeps_attrs trunc sq dist tppf p s0) as [R _]. rewrite R. apply Hfi, Hk.
 Qed.
 
 (** [structural] an explicit set_reference at any state (accepted: not a < 3-row reference with
     detect_batch = 1) is equivalent to starting a new detector on that reference *)
 Theorem C07_clean_slate_set_reference : forall (p : hparams) (s : hstate) Y ops,
-  ((h_db p =? 1) && (zlen Y <? 3)) = false ->
+  ((h_db p =? 1) && (zlen Y <? 3)) = false -> ((1 <? h_k p) = false -> h_finfo s = None) ->
   hobserve (set_reference p s Y) = hshift (h_total s) (hobserve (set_reference p hdm_init Y)) /\
   trace p (set_reference p s Y) ops = map (hshift (h_total s)) (trace p (set_reference p hdm_init Y) ops).
-Proof. intros p s Y ops H. exact (clean_slate_set_reference trunc sq dist tppf p s Y ops H). Qed.
+Proof. intros p s Y ops H H'. exact (clean_slate_set_reference trunc sq dist tppf p s Y ops H H'). Qed.
 (** ... and a rejected one changes nothing *)
 Theorem C07_set_reference_rejected : forall (p : hparams) (s : hstate) Y,
   h_db p = 1 -> zlen Y < 3 -> set_reference p s Y = s.
@@ -446,6 +456,7 @@ Print Assumptions C07_threshold_denominator.
 Print Assumptions C07_drift_iff.
 Print Assumptions C07_no_drift_appends.
 Print Assumptions C07_drift_replaces.
+Print Assumptions C07_feature_epsilons.
 Print Assumptions C07_feature_info.
 Print Assumptions C07_feature_info_argmax.
 Print Assumptions C07_lifecycle_total.
